@@ -22,6 +22,11 @@ claim("C17",
       "Bounds: sorted sets of <= 2 members (3 thorough), integer score arguments in -4..4, one command per step. Known finding: ZADD without CH counts changed members (pinned by the repository's tests).",
       "DESIGN.md C14-C17")
 
+claim("C04",
+      "Server clock and deadlines are symbolic instants: for every observer (GET MGET TYPE TTL PTTL EXPIRETIME PEXPIRETIME STRLEN GETDEL LLEN HLEN SCARD ZCARD, SET NX/XX, LPUSHX) a key is served unchanged up to its deadline and reads as absent after it with no background expiry having run; a value written after expiry does not inherit the deadline; the EXPIRE family option table, PERSIST, and the rules by which SET/MSET/APPEND/RENAME/GETEX move a live deadline are checked against the documented semantics; one run of the background expiry cycle with symbolic random draws removes only expired keys, terminates, and keeps the volatile-key index consistent.",
+      "Bounds and the time model (nanosecond count with exact ms/s factorisation, range 2001..2096) are listed in the evidence assumptions; the real clock.Clock seam is implemented by the harness.",
+      "DESIGN.md C04")
+
 # every property without a claim is listed as not applicable (yet) with its reason
 NA_REASONS = {}
 for n in range(1, 21):
